@@ -164,6 +164,11 @@ def structures(ctx):
     # a chain that starts with an aspartate (N+ and the carboxylate are covalently coupled), scored with the optional
     # parameter settings of that coupling (common charge centre, shared determinants): names ending in [tag] get -p
     het.append(("frag-3SGB-I0+14 [ccc+shared+keep]", C.join(C.chain_lines("3SGB", "I", 0, 14) + [C.TER])))
+    # a disulfide whose S-S vector (2.0 A) lies along x: every rotation that moves it to another axis or sense (all 24)
+    ssl = C.chain_lines("3SGB", "E", 12, 4) + [C.TER] + C.rename_chain(C.chain_lines("3SGB", "E", 32, 4), "E", "F") + [C.TER]
+    sgs = [pdbio.parse_line(ln) for ln in ssl if C.is_atom(ln) and ln[17:20] == "CYS" and ln[12:16].strip() == "SG"]
+    if len(sgs) >= 2:
+        prot.append(("frag-3SGB-disulfide-along-x", C.join(C.align_to_axis(ssl, (sgs[0].x, sgs[0].y, sgs[0].z), (sgs[1].x, sgs[1].y, sgs[1].z), 0))))
     # every atom protonated (names ending in {options}): the extra hydrogens are rotamers chosen in the frame of the
     # structure, the heavy-atom quantities (clause a) do not depend on them
     het.append(("frag-1HPX-A0+45 {--protonate-all}", C.join(C.chain_lines("1HPX", "A", 0, 45) + [C.TER])))
